@@ -1,7 +1,7 @@
 """C10 Each node's math/text mode is the one implied by the enclosing structure."""
 from vlib.driver import Cond, ord_partition
 from vlib.common import Violation, require, fail
-from vlib.oracles import parse, is_list
+from vlib.oracles import parse, is_list, node_children
 from vlib.parsefam import get_ctx, skel_pre, skel_fill, BS, hole_variants
 from pylatexenc.latexwalker import LatexWalkerParseError
 from pylatexenc.latexnodes import nodes as N
@@ -95,6 +95,35 @@ def body_dollars(s, ctxname, expect):
     return True
 
 
+def all_math(n, acc):
+    if n is None:
+        return
+    if is_list(n):
+        for x in n:
+            all_math(x, acc)
+        return
+    if isinstance(n, N.LatexMathNode):
+        acc.append((n.displaytype, n.delimiters[0]))
+    for c in node_children(n):
+        all_math(c, acc)
+
+
+def body_dollars_nested(s, ctxname, expect):
+    """a run of dollar signs directly inside another math construct; expect: (displaytype, opening delimiter) of ALL math
+    nodes of the tree in document order"""
+    try:
+        nl = parse(s, get_ctx(ctxname), tolerant=False)
+    except Violation:
+        raise
+    except Exception as e:
+        fail('strict parse of a well-formed dollar run inside a math construct raised %s' % type(e).__name__)
+    walk(s, nl, False, None, 'S')
+    got = []
+    all_math(nl, got)
+    require(got == list(expect), 'run of dollar signs inside a math construct split into the wrong formulas')
+    return True
+
+
 def digit_pre(sk):
     return ['len(s) == %d' % len(sk)] + [('48 <= ord(s[%d]) < 58' % i) if ch == '?' else ('s[%d] == chr(%d)' % (i, ord(ch)))
                                           for i, ch in enumerate(sk)]
@@ -124,6 +153,17 @@ DOLLARS = [
 ]
 
 
+II = [('inline', '$'), ('inline', '$')]
+NESTED = [
+    ('in_paren', BS + '($?$$?$' + BS + ')', [('inline', BS + '(')] + II),
+    ('in_brack', BS + '[$?$$?$' + BS + ']', [('display', BS + '[')] + II),
+    ('in_env_M', BS + 'begin{M}$?$$?$' + BS + 'end{M}', II),
+    ('in_m_arg', BS + 'm{$?$$?$}', II),
+    ('in_t_in_math', '$' + BS + 't{$?$$?$}$', [('inline', '$')] + II),
+    ('dd_in_m_arg', BS + 'm{?$$?$$}', [('display', '$$')]),
+]
+
+
 def conditions(tier):
     quick = tier == 'quick'
     T = 600 if quick else 3000
@@ -150,6 +190,9 @@ def conditions(tier):
                                   descr='skeleton %r (? = any character)' % sk))
     for nm, sk, exp in DOLLARS:
         conds.append(Cond('dollars_' + nm, 's: str', digit_pre(sk), "body_dollars(s, 'S', %r)" % (exp,), timeout=T,
+                          smoke=[dict(s=sk.replace('?', '1'))], descr='%r with digits in the holes' % sk))
+    for nm, sk, exp in NESTED:
+        conds.append(Cond('nested_' + nm, 's: str', digit_pre(sk), "body_dollars_nested(s, 'S', %r)" % (exp,), timeout=T,
                           smoke=[dict(s=sk.replace('?', '1'))], descr='%r with digits in the holes' % sk))
     return conds
 
